@@ -17,10 +17,16 @@ _EXACT_BETAS = [0.0, 0.125, 0.5, 1.0, 3.0, 17.375, 1024.0, float(2 ** 30)]
 
 @st.composite
 def cost_case(draw, classes=("E", "E", "F"), shapes=("tiny", "tiny", "tiny", "small", "small", "long", "wide"),
-              dtypes=()):
+              dtypes=(), very_long=False):
     cls = draw(st.sampled_from(list(classes)))
     shape = draw(st.sampled_from(list(shapes)))
-    if shape == "tiny":        # brute force possible
+    if very_long and draw(st.integers(0, 39)) == 0:
+        shape = "very_long"
+    if shape == "very_long":   # more rows than any fixed block size a kernel is likely to use (4096, 8192)
+        T = draw(st.sampled_from([4096, 4097, 4100, 5000, 8192, 8193, 8200, 9000])) + draw(st.integers(0, 2))
+        K = draw(st.integers(2, 4))
+        cls = "E"
+    elif shape == "tiny":        # brute force possible
         T = draw(st.integers(1, 7))
         kmax = max(1, int(math.floor(60000 ** (1.0 / T))))
         K = draw(st.integers(1, min(6, kmax)))
@@ -104,10 +110,28 @@ def cost_case(draw, classes=("E", "E", "F"), shapes=("tiny", "tiny", "tiny", "sm
             else:
                 beta_v = float(bscale * rng.uniform(0, 1))
         cost = np.ascontiguousarray(cost, dtype=np.float64)
+    if cls == "E" and cost.shape[1] >= 2 and draw(st.integers(0, 4)) == 0:
+        # a few entries are astronomically expensive (2**57, exactly representable); every row keeps at least one ordinary entry,
+        # so no optimal path touches them, the optimum and its cost stay exact, and a kernel that keeps absolute values never
+        # notices - one that re-centres or rescales rows loses the small differences next to them
+        seed2 = draw(st.integers(0, 2 ** 32 - 1))
+        r2 = np.random.default_rng(seed2)
+        Tn, Kn = cost.shape
+        cost = np.array(cost, dtype=np.float64, copy=True)
+        for i in r2.choice(Tn, size=min(Tn, 1 + int(r2.integers(0, 3))), replace=False):
+            cols = r2.choice(Kn, size=int(r2.integers(1, Kn)), replace=False)
+            cost[i, cols] = float(2 ** 57)
+        outliers = True
+    else:
+        outliers = False
     case = {"cls": cls, "shape": shape, "cost": cost, "beta": beta_v, "reuse_buffers": draw(st.booleans())}
+    if outliers:
+        case["huge_entries"] = True
     if cls == "E" and dtypes and draw(st.integers(0, 7)) == 0:
         # the same exact-arithmetic table handed over in another real dtype (values exactly representable there)
         dt = draw(st.sampled_from(list(dtypes)))
+        if outliers and dt == "int32":
+            dt = "int64"                      # 2**57 does not fit in 32 bits
         if dt.startswith("int"):
             cost = np.round(cost)
         case["cost"] = np.ascontiguousarray(cost.astype(dt).astype(np.float64))
@@ -160,8 +184,9 @@ def e2e_config(draw, front=("single", "single", "joint"), max_N=3, max_W=4, max_
         "outliers": draw(st.sampled_from([0, 0, 0, 1, 1, 2, 3])),
         "reuse_buffers": draw(st.booleans()),
         "prior_calls_on_same_arrays": draw(st.booleans()),
-        "series_as_views": draw(st.sampled_from([False, False, True])),
+        "series_as_views": draw(st.sampled_from([False, False, False, True, "interleaved"])),
         "mp_env": draw(st.sampled_from([False, False, True])),
+        "quantise": draw(st.sampled_from([None, None, None, None, 1.0, 2.0])),
     }
     if cfg["beta_form"] == "vector" and draw(st.booleans()):
         cfg["beta_vector_seed"] = draw(st.integers(0, 2 ** 16))
@@ -172,6 +197,17 @@ def e2e_config(draw, front=("single", "single", "joint"), max_N=3, max_W=4, max_
         cfg["beta_form"] = "scalar"          # (checks whose oracle reads the cost as a scalar keep it one for joint runs)
         cfg.pop("beta_vector_seed", None)
         cfg.pop("beta_zero_at", None)
+    if draw(st.integers(0, 4)) == 0:
+        which = draw(st.sampled_from(["eps", "eps", "biased", "limit", "m", "lam", "beta", "K"]))
+        cfg["prior_run_override"] = {
+            "eps": {"eps": draw(st.sampled_from([0, 1e-3, 1e-2, 0.1])) if cfg["eps"] else draw(st.sampled_from([1e-3, 1e-2, 0.1]))},
+            "biased": {"biased": not cfg["biased"]},
+            "limit": {"limit": 1 if cfg["limit"] > 1 else 3},
+            "m": {"m": cfg["m"] + 1},
+            "lam": {"lam": 0.3 if cfg["lam"] != 0.3 else 0.11},
+            "beta": {"beta": cfg["beta"] + 1.5},
+            "K": {"K": cfg["K"] + 1 if cfg["K"] < 4 else cfg["K"] - 1},
+        }[which]
     if offsets:
         cfg["data_offset"] = draw(st.sampled_from(list(offsets)))
     if m_large and draw(st.integers(0, 5)) == 0:
